@@ -73,7 +73,8 @@ DEFAULT_CMP = [b'none']
 class RefPeer:
     def __init__(self, role, *, loop=None, host_key=None, kex=None, enc=None,
                  mac=None, cmp=None, version=b'SSH-2.0-RefPeer_1.0',
-                 strict=True, hostkey_algs=None, ext_info=False):
+                 strict=True, hostkey_algs=None, ext_info=False,
+                 enc_sc=None, mac_sc=None, cmp_sc=None):
         assert role in ('client', 'server')
         self.role = role
         self.loop = loop or asyncio.get_event_loop()
@@ -83,11 +84,11 @@ class RefPeer:
             'kex': list(kex or DEFAULT_KEX),
             'hostkey': list(hostkey_algs or [b'ssh-ed25519']),
             'enc_cs': list(enc or DEFAULT_ENC),
-            'enc_sc': list(enc or DEFAULT_ENC),
+            'enc_sc': list(enc_sc or enc or DEFAULT_ENC),
             'mac_cs': list(mac or DEFAULT_MAC),
-            'mac_sc': list(mac or DEFAULT_MAC),
+            'mac_sc': list(mac_sc or mac or DEFAULT_MAC),
             'cmp_cs': list(cmp or DEFAULT_CMP),
-            'cmp_sc': list(cmp or DEFAULT_CMP),
+            'cmp_sc': list(cmp_sc or cmp or DEFAULT_CMP),
         }
         self.strict_offer = strict
         self.version = version
